@@ -267,4 +267,26 @@ MUTANTS = {
     "predict_seed_ignored": {
         "props": ["C10"], "what": "EG.predict ignores random_state (fresh entropy)",
         "edits": [(EG, "        random_state = check_random_state(random_state)\n\n        if isinstance(self.constraints, ClassificationMoment):", "        random_state = check_random_state(None)\n\n        if isinstance(self.constraints, ClassificationMoment):")]},
+    # ---------------------------------------------------------------- C16 adversarial update rule
+    "rev_fix_torch_inner": {
+        "props": ["C16"], "what": "revert fix 3f26296: projection coefficient via torch.inner",
+        "edits": [(PE, "            proj = torch.sum(unit_dW_LA * dW_LP[i])", "            proj = torch.sum(torch.inner(unit_dW_LA, dW_LP[i]))")]},
+    "rev_fix_tiny_dtype": {
+        "props": ["C16"], "what": "revert fix 9293494: float64 tiny added to a float32 norm",
+        "edits": [(PE, "torch.finfo(dW_LA[i].dtype).tiny", "torch.finfo(float).tiny")]},
+    "adv_alpha_sign": {
+        "props": ["C16"], "what": "+ alpha * dLA instead of - alpha * dLA",
+        "edits": [(PE, "            p.grad = dW_LP[i] - proj * unit_dW_LA - self.base.alpha * dW_LA[i]", "            p.grad = dW_LP[i] - proj * unit_dW_LA + self.base.alpha * dW_LA[i]")]},
+    "adv_projection_dropped": {
+        "props": ["C16"], "what": "projection term dropped",
+        "edits": [(PE, "            p.grad = dW_LP[i] - proj * unit_dW_LA - self.base.alpha * dW_LA[i]", "            p.grad = dW_LP[i] - self.base.alpha * dW_LA[i]")]},
+    "adv_projection_unnormalised": {
+        "props": ["C16"], "what": "projection uses dLA instead of the unit vector once",
+        "edits": [(PE, "            p.grad = dW_LP[i] - proj * unit_dW_LA - self.base.alpha * dW_LA[i]", "            p.grad = dW_LP[i] - proj * dW_LA[i] - self.base.alpha * dW_LA[i]")]},
+    "adv_adversary_not_stepped_on_own_gradient": {
+        "props": ["C16"], "what": "adversary gradients zeroed before its optimiser step when alpha == 0",
+        "edits": [(PE, "        self.predictor_optimizer.step()\n        self.adversary_optimizer.step()", "        self.predictor_optimizer.step()\n        if self.base.alpha == 0:\n            self.adversary_optimizer.zero_grad()\n        self.adversary_optimizer.step()")]},
+    "adv_equalized_odds_y_not_passed": {
+        "props": ["C16"], "what": "equalized odds: adversary sees Y_hat twice instead of (Y_hat, Y)",
+        "edits": [(PE, "            Y_hat = torch.cat((Y_hat, Y), dim=1)", "            Y_hat = torch.cat((Y_hat, Y_hat.detach()), dim=1)")]},
 }
